@@ -196,6 +196,25 @@ class BuiltinMixin:
             outs = self.getattr_v(st, obj, cs, node)
         elif isinstance(obj, SV) and isinstance(name, SV):
             outs = self.getattr_dynamic(st, obj, name, node)
+        elif isinstance(obj, ClassV) and isinstance(name, SV) and not obj.ci.external:
+            # getattr(<known class>, <symbolic name>): case split over the names the class table defines
+            nm = s_of(name.term)
+            names = set()
+            for c in obj.ci.mro:
+                if not c.external:
+                    names |= set(c.methods) | set(c.class_attrs)
+            outs = []
+            cur = st
+            for n in sorted(names):
+                if cur is None:
+                    break
+                yes, cur = self.fork(cur, nm == S(n))
+                if yes is not None:
+                    outs.extend(self.getattr_v(yes, obj, n, node))
+            if cur is not None:
+                self.note(f'getattr({obj.ci.name}, <name>) for names not defined by the class table raises AttributeError '
+                          '(attributes inherited from external bases are not properties)')
+                outs.append(self.raise_new(cur, 'AttributeError'))
         else:
             raise Unsupported('getattr with symbolic name on non-symbolic object', node)
         if len(args.pos) == 3:
@@ -450,7 +469,19 @@ class BuiltinMixin:
         raise Unsupported('set(x) shape', node)
 
     def bi_dir(self, st, args, node):
-        raise Unsupported('dir() needs a reflection summary', node)
+        """dir(obj) summarised from the class table (re-derived every run): every name defined by the classes of the
+        object's MRO plus the instance attributes they assign, sorted as dir() sorts."""
+        (v,) = self.one_pos(args, 1, 'dir')
+        if not isinstance(v, SV) or v.cls is None or v.cls.external:
+            raise Unsupported('dir() of object of unknown class', node)
+        names = set()
+        for c in v.cls.mro:
+            names |= set(c.methods) | set(c.class_attrs) | set(c.inst_attrs)
+        self.note(f'dir({v.cls.name} instance) summarised from the class table ({len(names)} names); names contributed by '
+                  'external base classes are not properties of the class and are omitted')
+        if not v.exact:
+            self.assumptions_used.add(f'dir(): subclasses of {v.cls.name} define no further mutable properties')
+        return self.ok(st, IterV('concrete', items=[self.py_str(n) for n in sorted(names)]))
 
     def bi_iter(self, st, args, node):
         (v,) = self.one_pos(args, 1, 'iter')
@@ -483,17 +514,40 @@ class BuiltinMixin:
         if seq is None:
             raise Unsupported('generator over non-sequence', node)
         i = smt.fresh('gi', smt.Int)
-        s3 = st2.copy()
-        s3.assume(AND(i >= 0, i < z3.Length(seq)))
-        a = self.assign(s3, g.target, SV(seq[i]))
-        assert len(a) == 1
-        body = self._gen_body_term(a[0].st, gen, g, node)
         rng = AND(i >= 0, i < z3.Length(seq))
+        elem = seq[i]
+
+        def body_for(kind):
+            s3 = st2.copy()
+            s3.assume(rng)
+            ev = SV(elem, kind)
+            if kind == 'str':
+                s3.assume(is_str(elem))
+            a = self.assign(s3, g.target, ev)
+            assert len(a) == 1
+            return self._gen_body_term(a[0].st, gen, g, node)
+
+        outs = []
+        try:
+            body = body_for(None)
+            typed = TRUE
+        except Unsupported:
+            # the element expression is only defined for strings (e.g. rule.startswith(..)): quantify over the string
+            # elements and add the path on which some element is not a string (the real code raises there)
+            body = body_for('str')
+            typed = is_str(elem)
+            bad = z3.Exists([i], AND(rng, NOT(is_str(elem))))
+            sbad = st2.copy()
+            sbad.assume(bad)
+            if self.feasible(sbad):
+                outs.append(self.raise_new(sbad, 'AttributeError'))
+            st2 = st2.copy()
+            st2.assume(z3.ForAll([i], z3.Implies(rng, is_str(elem))))
         if universal:
             res = z3.ForAll([i], z3.Implies(rng, body))
         else:
             res = z3.Exists([i], AND(rng, body))
-        return self.ok(st2, SV(boolv(res), 'bool'))
+        return outs + self.ok(st2, SV(boolv(res), 'bool'))
 
     def _gen_body_term(self, st, gen, g, node):
         conds = []
@@ -504,12 +558,22 @@ class BuiltinMixin:
                 raise Unsupported('generator condition forks or may raise', node)
             conds.append(self.truthy(o[0].st, o[0].val))
             cur = o[0].st
-        o = self.ev(cur, gen.elt)
-        oks = [x for x in o if x.kind == 'ok']
-        if len(o) != 1 or len(oks) != 1:
-            # the element expression may raise for some element kinds (e.g. .startswith on a non-str)
-            raise Unsupported('generator element forks or may raise; state element types in the contract', node)
-        body = self.truthy(oks[0].st, oks[0].val)
+        def pure_truth(st_, n):
+            if isinstance(n, ast.BoolOp):
+                ts = [pure_truth(st_, v) for v in n.values]
+                return AND(*ts) if isinstance(n.op, ast.And) else OR(*ts)
+            if isinstance(n, ast.UnaryOp) and isinstance(n.op, ast.Not):
+                return NOT(pure_truth(st_, n.operand))
+            o = self.ev(st_, n)
+            oks = [x for x in o if x.kind == 'ok']
+            if len(o) != 1 or len(oks) != 1:
+                # the element expression may raise for some element kinds (e.g. .startswith on a non-str)
+                raise Unsupported('generator element forks or may raise; state element types in the contract', node)
+            return self.truthy(oks[0].st, oks[0].val)
+
+        body = pure_truth(cur, gen.elt)
+        return AND(*conds, body) if conds else body
+        oks = [None]
         # side conditions assumed during the element evaluation (type facts) are kept as antecedents
         extra = oks[0].st.pc[len(st.pc):]
         if extra:
@@ -518,11 +582,39 @@ class BuiltinMixin:
             return AND(*conds, body)
         return body
 
+    def probe_kind(self, st, v: SV, timeout_ms=400):
+        """give an untyped symbolic value a kind hint if the path condition entails one"""
+        if v.kind is not None:
+            return v
+        for kind, pred in (('str', is_str), ('ref', is_ref)):
+            if self.entails(st, pred(v.term), timeout_ms):
+                return SV(v.term, kind)
+        return v
+
     def bi_any(self, st, args, node):
         raise Unsupported('any() on non-generator', node)
 
     def bi_all(self, st, args, node):
         raise Unsupported('all() on non-generator', node)
+
+    # Mapping mix-in methods of repository mapping classes that delegate to a private dict
+    def _mapping(self, st, selfv, k, node):
+        return self.bind(self.mapping_view(st, selfv, node), k)
+
+    def bm_mapping_items(self, st, selfv, args, node):
+        return self._mapping(st, selfv, lambda s2, d: self.ok(s2, IterV('dictitems', d=d)), node)
+
+    def bm_mapping_keys(self, st, selfv, args, node):
+        return self._mapping(st, selfv, lambda s2, d: self.ok(s2, IterV('dictkeys', d=d)), node)
+
+    def bm_mapping_values(self, st, selfv, args, node):
+        return self._mapping(st, selfv, lambda s2, d: self.ok(s2, IterV('dictvalues', d=d)), node)
+
+    def bm_mapping_get(self, st, selfv, args, node):
+        return self._mapping(st, selfv, lambda s2, d: self.bm_dict_get(s2, d, args, node), node)
+
+    def bm_mapping___contains__(self, st, selfv, args, node):
+        return self._mapping(st, selfv, lambda s2, d: self.contains(s2, d, args.pos[0], node), node)
 
     # ------------------------------------------------------------------ well-known library functions
     def bi_asyncio_iscoroutinefunction(self, st, args, node):
